@@ -9,6 +9,7 @@ import (
 	"os"
 	"os/exec"
 	"path/filepath"
+	"runtime"
 	"strings"
 	"sync"
 	"time"
@@ -446,4 +447,16 @@ func solveSplitCtx(ctx context.Context, o *Obligation, file string, opt solveOpt
 	}
 	o.Status, o.Solver = "unsat", "case-split("+subs[len(subs)-1].Solver+")"
 	o.Output += fmt.Sprintf("; case split over the %d cases of a control-flow join: all unsat", len(variants))
+}
+
+// solverJobs: number of solver processes in flight = CPUs this process may run on (at most 16, at least 2).
+func solverJobs() int {
+	n := runtime.NumCPU()
+	if n > 16 {
+		n = 16
+	}
+	if n < 2 {
+		n = 2
+	}
+	return n
 }
